@@ -4,6 +4,7 @@ package writer
 
 import (
 	"github.com/bits-and-blooms/bloom/v3"
+	dtu "github.com/siglens/siglens/pkg/common/dtypeutils"
 	"github.com/siglens/siglens/pkg/segment/structs"
 	sutils "github.com/siglens/siglens/pkg/segment/utils"
 )
@@ -146,4 +147,29 @@ func VerifC03Windows(segstore interface{}) map[string][]byte {
 		out[name] = append([]byte{}, cw.getLastRecord()...)
 	}
 	return out
+}
+
+// VerifC03UnrotatedText: DoCMICheckForUnrotated (the whole micro-index decision of an open segment) for a text
+// query on column col ("*" = every column): keys / original keys, And / Or, wildcard value, NegateMatch.
+func VerifC03UnrotatedText(blocks []map[string]VerifC03Cmi, col string, keys map[string]bool, orig map[string]string,
+	and bool, wildcardValue bool, negate bool) map[uint16]bool {
+	usi := &UnrotatedSegmentInfo{isCmiLoaded: true, unrotatedBlockCmis: VerifC03Containers(blocks), allColumns: map[string]bool{}}
+	for _, b := range blocks {
+		usi.blockSummaries = append(usi.blockSummaries, &structs.BlockSummary{LowTs: 10, HighTs: 20, RecCount: 1})
+		for c := range b {
+			usi.allColumns[c] = true
+		}
+	}
+	op := sutils.Or
+	if and {
+		op = sutils.And
+	}
+	q := &structs.SearchQuery{MatchFilter: &structs.MatchFilter{MatchColumn: col, NegateMatch: negate}}
+	tf, _, _, _ := usi.DoCMICheckForUnrotated(q, &dtu.TimeRange{StartEpochMs: 1, EndEpochMs: 100}, structs.InitEntireFileBlockTracker(),
+		keys, orig, op, nil, sutils.Equals, false, wildcardValue, 0)
+	res := map[uint16]bool{}
+	for k := range tf {
+		res[k] = true
+	}
+	return res
 }
